@@ -743,6 +743,79 @@ theorem diskpacked_run_eq (max : Nat) (content : Bytes → Bytes) (ops : List Op
     (diskpackedImpl max).run (diskpackedImpl max).init ops = RefMap.run [] ops :=
   (diskpackedRefines max content).run_init ops hwk hk
 
+/-! ## the same refinement, carrying any key predicate `K` that implies `keyForm` -/
+
+/-- every indexed key satisfies `K` -/
+def Keyed (K : Bytes → Prop) (st : Store) : Prop := ∀ k m, st.index.get k = some m → K k
+
+theorem keyed_init (K : Bytes → Prop) (max : Nat) : Keyed K (Store.init max) := by
+  intro k m h; simp [Store.init, Index.get] at h
+
+theorem keyed_append {K : Bytes → Prop} {st : Store} (hf : Keyed K st) (hne : st.packs ≠ []) (k v : Bytes)
+    (hk : K k) : Keyed K (st.append k v) := by
+  obtain ⟨init, last, hp⟩ := exists_concat st.packs hne
+  intro k2 m2 hg
+  rw [(append_shape st init last hp k v).2] at hg
+  by_cases hk2 : k2 = k
+  · subst hk2; exact hk
+  · rw [Index.get_set_other _ _ _ _ hk2] at hg; exact hf k2 m2 hg
+
+theorem keyed_remove {K : Bytes → Prop} {st : Store} (hf : Keyed K st) (k : Bytes) :
+    Keyed K (st.remove [k]) := by
+  intro k2 m2 hg
+  rw [remove_one] at hg
+  by_cases hk : k2 = k
+  · subst hk
+    have : (st.index.del k2).get k2 = some m2 := hg
+    rw [Index.get_del_same] at this; cases this
+  · have : (st.index.del k).get k2 = some m2 := hg
+    rw [Index.get_del_other _ _ _ hk] at this; exact hf k2 m2 this
+
+theorem keyed_step {K : Bytes → Prop} {st : Store} (hf : Keyed K st) (hne : st.packs ≠ []) (op : Op)
+    (hk : op.KOK K) : Keyed K (step st op).1 := by
+  cases op with
+  | recv k v =>
+    have ha := keyed_append hf hne k v hk
+    simp only [step, Store.receive]
+    split
+    · split
+      · split
+        · exact hf
+        · exact ha
+      · exact ha
+    · exact ha
+  | rm k => exact keyed_remove hf k
+  | fetch k => exact hf
+  | stat k => exact hf
+  | enum a l => exact hf
+
+/-- **diskpacked refines the reference map under any key predicate `K` that implies `keyForm`**: same
+abstraction as `diskpackedRefines`; the invariant is `Inv` plus "every indexed key satisfies `K`" -/
+def diskpackedRefinesK (max : Nat) (content : Bytes → Bytes) (K : Bytes → Prop)
+    (hK : ∀ k, K k → keyForm k = true) : RefinesK content K (diskpackedImpl max) where
+  abs := absOf
+  Inv := fun st => Inv content st ∧ Keyed K st
+  init_inv := ⟨inv_init content max, keyed_init K max⟩
+  init_abs := rfl
+  good := fun _ h => good_abs h.1
+  keys := by
+    intro (st : Store) ⟨(h : Inv content st), (hf : Keyed K st)⟩ k v hg
+    rw [get_abs h] at hg
+    cases hm : st.index.get k with
+    | none => simp [hm] at hg
+    | some m => exact hf k m hm
+  step_ok := by
+    intro (st : Store) op ⟨(h : Inv content st), (hf : Keyed K st)⟩ hop hkey
+    have hform : Formed st := fun k m hm => hK k (hf k m hm)
+    obtain ⟨ha, hi, ho⟩ := diskpacked_step_anykey content st h op hop
+    refine ⟨?_, ha, hi, keyed_step hf h.ne op hkey⟩
+    cases op with
+    | rm k => exact rmOut_ok h hform k
+    | recv k v => exact ho (fun _ e => by cases e)
+    | fetch k => exact ho (fun _ e => by cases e)
+    | stat k => exact ho (fun _ e => by cases e)
+    | enum a l => exact ho (fun _ e => by cases e)
+
 /-- outside `KeyOK`: a key text without `-` (no `blob.Ref` prints like that).  The blob is stored and
 served, but `delete` cannot rewrite its header ("cannot find dash in ref") and `RemoveBlobs` answers
 with that error – after having removed the row all the same. -/
